@@ -77,4 +77,29 @@ theorem mapM_named {β} (F : RState → String → RState × Except RErr β) (ds
     · simp only [exec_bind, ih s1, exec_pure]
       rcases listComp F s1 ds with ⟨s2, (e | ys)⟩ <;> rfl
 
+theorem asStrs_map (ds : List String) : asStrs (ds.map Tree.tok) = .ok ds := by
+  induction ds with
+  | nil => rfl
+  | cons d ds ih => simp only [asStrs, List.map_cons, List.mapM_cons, asStr] at *; rw [ih]; rfl
+
+/-- the `composite-domain` branch of the translation is the branch `lineComposite` of the model, for a line whose name is a str and whose
+    third item is a list of strs (for a list that contains a LIST the model reports TypeError before any request, the code requests the domains
+    before it) -/
+theorem composite_eq (sl : Slots) (RT : Py.StrSet) (g12 : Py.FloatLit → String) (strL : List Tree → String) (name : String) (ds : List String)
+    (rest : List Tree) (s : RState) :
+    Py.MS.exec (py_read_pil_line (modelEnv sl RT g12 strL) (.tok "composite-domain" :: .tok name :: .grp (ds.map .tok) :: rest)) s =
+      outOf (.tok "composite-domain" :: .tok name :: .grp (ds.map .tok) :: rest)
+        (s.readLineFull sl (.tok "composite-domain" :: .tok name :: .grp (ds.map .tok) :: rest)) := by
+  simp [py_read_pil_line, modelEnv, Py.idx, Py.treeEqStr, Py.treeItems, RState.readLineFull, item, isStr, lineComposite, outOf, asList,
+    asStr, asStrs_map, Except.bind, exec_bind, mapM_named, named_tok, exec_req_bind, exec_map_req]
+  have h := mapM_named (fun s d => ctorDomain sl s { name := some d }) ds s
+  simp only [List.mapM_map] at h
+  rw [h]
+  generalize listComp (fun s d => ctorDomain sl s { name := some d }) s ds = r
+  rcases r with ⟨s1, (e | sq)⟩
+  · rfl
+  · simp only
+    generalize ctorStrand sl s1 (some (List.map some sq)) (some name) = r2
+    rcases r2 with ⟨s2, (e | id)⟩ <;> rfl
+
 end Dsd.PyReadLineL
